@@ -11,9 +11,10 @@ import errno
 import struct
 from typing import List
 import billiard.connection as bc
-from harness.hbase import fail, tier, Prune, PART, NPART, realize
+from harness.hbase import fail, tier, Prune, PART, NPART, realize, untraced
 
 NMAX = tier(3, 5)
+FULLFRAG = tier(False, True)     # quick: every read/write moves either one byte or as much as possible; thorough: any count
 
 
 class WPipe:
@@ -33,8 +34,13 @@ class WPipe:
             raise Prune()
         k = self.ks[self.i]
         self.i += 1
-        if not (1 <= k <= n):
-            raise Prune()
+        if FULLFRAG:
+            if not (1 <= k <= n):
+                raise Prune()
+        else:
+            if not (0 <= k <= 1):
+                raise Prune()
+            k = 1 if k == 1 else n
         self.data += bytes(buf[:k])
         return k
 
@@ -58,8 +64,13 @@ class RPipe:
             raise Prune()
         k = self.ks[self.i]
         self.i += 1
-        if not (1 <= k <= min(want, avail)):
-            raise Prune()
+        if FULLFRAG:
+            if not (1 <= k <= min(want, avail)):
+                raise Prune()
+        else:
+            if not (0 <= k <= 1):
+                raise Prune()
+            k = 1 if k == 1 else min(want, avail)
         out, self.data = self.data[:k], self.data[k:]
         return out
 
@@ -76,9 +87,19 @@ def _release(c):
     c._handle = None          # never let __del__ close a real descriptor
 
 
+def _spart(n, use_size):
+    # NPART = 2 * (NMAX + 1): payload length x whether an explicit size is passed
+    return NPART == 1 or (n == PART % (NMAX + 1) and use_size == ((PART // (NMAX + 1)) % 2 == 1))
+
+
+def _rpart(n1, n2):
+    # NPART = (NMAX + 1) * NMAX: the two payload lengths
+    return NPART == 1 or (n1 == PART % (NMAX + 1) and n2 == (PART // (NMAX + 1)) % NMAX)
+
+
 def h_send(n: int, offset: int, size: int, use_size: bool, ks: List[int], eintr: int) -> bool:
     """
-    pre: 0 <= n <= NMAX and -1 <= offset <= NMAX + 1 and -1 <= size <= NMAX + 1 and len(ks) == NMAX + 6 and 0 <= eintr <= 4
+    pre: 0 <= n <= NMAX and -1 <= offset <= NMAX + 1 and -1 <= size <= NMAX + 1 and len(ks) == NMAX + 6 and 0 <= eintr <= 2 and _spart(n, use_size)
     post: _
     """
     n = realize(n)
@@ -111,7 +132,7 @@ def h_send(n: int, offset: int, size: int, use_size: bool, ks: List[int], eintr:
 
 def h_send_twin(n: int, offset: int, size: int, use_size: bool, ks: List[int], eintr: int) -> bool:
     """
-    pre: 0 <= n <= NMAX and -1 <= offset <= NMAX + 1 and -1 <= size <= NMAX + 1 and len(ks) == NMAX + 6 and 0 <= eintr <= 4
+    pre: 0 <= n <= NMAX and -1 <= offset <= NMAX + 1 and -1 <= size <= NMAX + 1 and len(ks) == NMAX + 6 and 0 <= eintr <= 2 and _spart(n, use_size)
     post: _
     """
     n = realize(n)
@@ -177,7 +198,7 @@ def _recv(n1, n2, cut, ks, eintr, want):
 
 def h_recv(n1: int, n2: int, cut: int, ks: List[int], eintr: int) -> bool:
     """
-    pre: 0 <= n1 <= NMAX and 0 <= n2 <= NMAX - 1 and 0 <= cut <= 8 + n1 + n2 and len(ks) == 2 * NMAX + 9 and 0 <= eintr <= 6
+    pre: 0 <= n1 <= NMAX and 0 <= n2 <= NMAX - 1 and 0 <= cut <= 8 + n1 + n2 and len(ks) == 2 * NMAX + 9 and 0 <= eintr <= 2 and _rpart(n1, n2)
     post: _
     """
     n1 = realize(n1)
@@ -187,7 +208,7 @@ def h_recv(n1: int, n2: int, cut: int, ks: List[int], eintr: int) -> bool:
 
 def h_recv_twin(n1: int, n2: int, cut: int, ks: List[int], eintr: int) -> bool:
     """
-    pre: 0 <= n1 <= NMAX and 0 <= n2 <= NMAX - 1 and 0 <= cut <= 8 + n1 + n2 and len(ks) == 2 * NMAX + 9 and 0 <= eintr <= 6
+    pre: 0 <= n1 <= NMAX and 0 <= n2 <= NMAX - 1 and 0 <= cut <= 8 + n1 + n2 and len(ks) == 2 * NMAX + 9 and 0 <= eintr <= 2 and _rpart(n1, n2)
     post: _
     """
     n1 = realize(n1)
@@ -197,7 +218,7 @@ def h_recv_twin(n1: int, n2: int, cut: int, ks: List[int], eintr: int) -> bool:
 
 def h_limits(n: int, maxlength: int, bufsize: int, offset: int, into: bool, rw: bool, ks: List[int]) -> bool:
     """
-    pre: 0 <= n <= NMAX and -1 <= maxlength <= NMAX + 1 and 0 <= bufsize <= NMAX + 1 and -1 <= offset <= NMAX + 2 and len(ks) == NMAX + 5
+    pre: 0 <= n <= NMAX and -1 <= maxlength <= NMAX + 1 and 0 <= bufsize <= NMAX + 1 and -1 <= offset <= NMAX + 2 and len(ks) == NMAX + 5 and _spart(n, into)
     post: _
     """
     n = realize(n)
@@ -209,7 +230,8 @@ def h_limits(n: int, maxlength: int, bufsize: int, offset: int, into: bool, rw: 
     rx = _conn(True, rw, rpipe=pipe)
     try:
         if into:
-            buf = bytearray(b'.' * bufsize)
+            with untraced():
+                buf = bytearray(b'.' * bufsize)      # a plain bytearray (CrossHair's own bytearray has no buffer protocol)
             try:
                 got = rx.recv_bytes_into(buf, offset)
             except Prune:
@@ -277,6 +299,8 @@ def h_state(closed: bool, readable: bool, op: int) -> bool:
     pipe_w = WPipe([1] * 8, 0)
     pipe_r = RPipe(struct.pack('!i', 1) + b'x', [4, 1, 1, 1], 0)
     c = _conn(readable, not readable, wpipe=pipe_w, rpipe=pipe_r)
+    real_wait = bc.wait
+    bc.wait = lambda objs, timeout=None: []        # readiness itself is the kernel's (outside)
     try:
         if closed:
             c._handle = None
@@ -303,6 +327,7 @@ def h_state(closed: bool, readable: bool, op: int) -> bool:
             return fail('C13:state:closed-or-wrong-direction-handle-accepted')
         return True
     finally:
+        bc.wait = real_wait
         _release(c)
 
 
